@@ -19,6 +19,8 @@ pub struct Train {
     pub pt: u16,
     pub pdu: Vec<u8>,
     pub pkts: Vec<Vec<u8>>,
+    /// header extensions carried by the first fragment (part of the PDU's own metadata)
+    pub exts: Vec<ExtS>,
 }
 
 #[derive(Clone, Debug, PartialEq, Eq, Hash)]
@@ -72,9 +74,13 @@ impl Sys {
     pub fn new(slots: usize, shapes: &[(usize, usize)], with_evictor: bool) -> Sys {
         Sys::new_with_reuse(slots, shapes, with_evictor, &[])
     }
+    pub fn new_with_reuse(slots: usize, shapes: &[(usize, usize)], with_evictor: bool, reuse: &[usize]) -> Sys {
+        Sys::new_full(slots, shapes, with_evictor, reuse, &[])
+    }
     /// `reuse`: indices of trains whose first fragment carries a re-use label (sent right after a start/complete
     /// packet with the same label)
-    pub fn new_with_reuse(slots: usize, shapes: &[(usize, usize)], with_evictor: bool, reuse: &[usize]) -> Sys {
+    /// `with_ext`: indices of trains whose first fragment carries one optional header extension
+    pub fn new_full(slots: usize, shapes: &[(usize, usize)], with_evictor: bool, reuse: &[usize], with_ext: &[usize]) -> Sys {
         // shapes: (pdu length, number of fragments)
         let labels = [L6A, L3A, Lbl::Bcast, L6B, L3B];
         let mut trains = vec![];
@@ -87,8 +93,18 @@ impl Sys {
             // every second train uses an id >= the number of slots (same slot, i + n), so that both
             // "high id in progress, low aliasing stray" and the reverse occur
             let id = if i % 2 == 1 { (i + slots) as u8 } else { i as u8 };
-            let pkts = ref_train(l, pt, id, &pd, &cuts);
-            trains.push(Train { id, label: l, pt, pdu: pd, pkts });
+            let mut pkts = ref_train(l, pt, id, &pd, &cuts);
+            let mut exts: Vec<ExtS> = vec![];
+            if with_ext.contains(&i) {
+                // same train, the first fragment carrying the optional extension 0x0202 (2 data bytes) in front of the
+                // protocol type; total length and CRC do not cover extension bytes
+                let total = (pd.len() + 2 + l.wire_len()) as u16;
+                let mut d = Desc::first(l, 0x0202, id, total, &pd[..cuts[0].min(pd.len())]);
+                d.ext_bytes = vec![0xE1, 0xE2, (pt >> 8) as u8, pt as u8];
+                pkts[0] = d.print();
+                exts.push((0x0202, vec![0xE1, 0xE2]));
+            }
+            trains.push(Train { id, label: l, pt, pdu: pd, pkts, exts });
         }
         let n = slots as u8;
         let k = shapes.len() as u8; // maps to the first slot no train uses (when slots > number of trains)
@@ -276,13 +292,14 @@ impl System for Sys {
                 let want_label = if t.label == Lbl::ReUse { resolved[*i].unwrap_or(Lbl::ReUse) } else { t.label };
                 match &out {
                     DecapOut::Fragmented { meta, consumed } if !last => {
+                        // (the extension list is judged at delivery only: the statement speaks of the delivered PDU's metadata)
                         if meta.label != want_label || meta.pt != t.pt || *consumed != bytes.len() {
                             viols.push(("C07|fragment-metadata".into(), format!("train {} packet #{}: {}", i, k, out.brief())));
                         }
                         idx[*i] = (k + 1) as u8;
                     }
                     DecapOut::Completed { buf, meta, consumed } if last => {
-                        if meta.pdu_len != t.pdu.len() || buf[..t.pdu.len().min(buf.len())] != t.pdu[..] || meta.label != want_label || meta.pt != t.pt || *consumed != bytes.len() {
+                        if meta.pdu_len != t.pdu.len() || buf[..t.pdu.len().min(buf.len())] != t.pdu[..] || meta.label != want_label || meta.pt != t.pt || meta.exts != t.exts || *consumed != bytes.len() {
                             viols.push(("C07|delivered-differs".into(), format!("train {} (frag id {}) delivered with wrong bytes or metadata: {} (expected pdu {} label {} pt {:#06x})", i, t.id, out.brief(), hex(&t.pdu), want_label.short(), t.pt)));
                         }
                         idx[*i] = t.pkts.len() as u8;
@@ -382,41 +399,48 @@ pub fn sys_from_name(name: &str) -> Option<Sys> {
     let shapes: Vec<(usize, usize)> = nums.chunks(2).filter(|c| c.len() == 2).map(|c| (c[0], c[1])).collect();
     let ev = name.contains("evictor=true");
     let reuse: Vec<usize> = match name.find("reuse=[") {
-        Some(k) => name[k + 7..].trim_end_matches(']').split(',').filter_map(|x| x.trim().parse().ok()).collect(),
+        Some(k) => name[k + 7..].split(']').next().unwrap_or("").split(',').filter_map(|x| x.trim().parse().ok()).collect(),
         None => vec![],
     };
-    Some(Sys::new_with_reuse(slots, &shapes, ev, &reuse))
+    let ext: Vec<usize> = match name.find("ext=[") {
+        Some(k) => name[k + 5..].split(']').next().unwrap_or("").split(',').filter_map(|x| x.trim().parse().ok()).collect(),
+        None => vec![],
+    };
+    Some(Sys::new_full(slots, &shapes, ev, &reuse, &ext))
 }
 
 pub fn run(tier: Tier) -> i32 {
     let rep = Report::new("C07", tier);
-    rep.set_rule("for each configuration (trains = (PDU length, fragments) on fragment ids 0..k-1, memory of n slots) breadth-first search to closure over advance(i) / restart(i) / stray(j) with state = (next index per train, real receiver snapshot); strays: intermediate/end of ids aliasing each train's slot (id+n, id+2n), of an id mapping to an empty slot, duplicate end of an idle train, complete packets (3-byte, broadcast and re-use label, the latter checked against the nearest preceding start/complete label), padding, oversize aliasing intermediate, (some configurations) a foreign first fragment claiming an aliasing slot; in some configurations trains whose first fragment carries a re-use label, offered only when a start/complete packet precedes them in the frame (padding ends the frame) and expected under the label of that packet; oracle: delivery exactly at the own end fragment with own bytes/metadata, no other train's reassembly data altered by any op, strays leave the memory unchanged, every packet is presented followed by three non-padding bytes and must consume exactly its own length; distinct = (op kind, outcome); number of distinct receiver memories per index vector reported");
+    rep.set_rule("for each configuration (trains = (PDU length, fragments) on fragment ids 0..k-1, memory of n slots) breadth-first search to closure over advance(i) / restart(i) / stray(j) with state = (next index per train, real receiver snapshot); strays: intermediate/end of ids aliasing each train's slot (id+n, id+2n), of an id mapping to an empty slot, duplicate end of an idle train, complete packets (3-byte, broadcast and re-use label, the latter checked against the nearest preceding start/complete label), padding, oversize aliasing intermediate, (some configurations) a foreign first fragment claiming an aliasing slot; in some configurations trains whose first fragment carries a re-use label, offered only when a start/complete packet precedes them in the frame (padding ends the frame) and expected under the label of that packet; in some configurations trains whose first fragment carries a header extension (part of the delivered metadata); oracle: delivery exactly at the own end fragment with own bytes/metadata, no other train's reassembly data altered by any op, strays leave the memory unchanged, every packet is presented followed by three non-padding bytes and must consume exactly its own length; distinct = (op kind, outcome); number of distinct receiver memories per index vector reported");
     rep.assume("trains are built by the reference printer (independent of the crate's encapsulator); PDUs of 4..12 bytes, 2..5 fragments");
-    let mut configs: Vec<(usize, Vec<(usize, usize)>, bool, Vec<usize>)> = vec![
-        (2, vec![(4, 2), (6, 3)], false, vec![]),
-        (3, vec![(4, 2), (6, 3)], false, vec![]),
-        (2, vec![(6, 3), (8, 4)], true, vec![]),
-        (3, vec![(4, 2), (5, 2), (6, 3)], false, vec![]),
-        (4, vec![(4, 2), (6, 3), (8, 4)], false, vec![]),
+    let mut configs: Vec<(usize, Vec<(usize, usize)>, bool, Vec<usize>, Vec<usize>)> = vec![
+        (2, vec![(4, 2), (6, 3)], false, vec![], vec![]),
+        (3, vec![(4, 2), (6, 3)], false, vec![], vec![]),
+        (2, vec![(6, 3), (8, 4)], true, vec![], vec![]),
+        (3, vec![(4, 2), (5, 2), (6, 3)], false, vec![], vec![]),
+        (4, vec![(4, 2), (6, 3), (8, 4)], false, vec![], vec![]),
     ];
-    configs.push((4, vec![(4, 2), (6, 3), (8, 4), (10, 5)], false, vec![]));
-    configs.push((5, vec![(4, 2), (6, 3), (8, 4), (10, 5)], true, vec![]));
-    configs.push((3, vec![(10, 5), (10, 5), (12, 4)], true, vec![]));
-    configs.push((5, vec![(4, 2), (6, 3), (8, 4), (10, 5), (12, 4)], false, vec![]));
+    configs.push((4, vec![(4, 2), (6, 3), (8, 4), (10, 5)], false, vec![], vec![]));
+    configs.push((5, vec![(4, 2), (6, 3), (8, 4), (10, 5)], true, vec![], vec![]));
+    configs.push((3, vec![(10, 5), (10, 5), (12, 4)], true, vec![], vec![]));
+    configs.push((5, vec![(4, 2), (6, 3), (8, 4), (10, 5), (12, 4)], false, vec![], vec![]));
     // trains whose first fragment carries a re-use label (resolved against the nearest preceding start/complete packet)
-    configs.push((3, vec![(4, 2), (6, 3)], false, vec![1]));
-    configs.push((2, vec![(6, 3), (8, 4)], true, vec![0]));
-    configs.push((3, vec![(4, 2), (5, 2), (6, 3)], false, vec![0, 2]));
+    configs.push((3, vec![(4, 2), (6, 3)], false, vec![1], vec![]));
+    configs.push((2, vec![(6, 3), (8, 4)], true, vec![0], vec![]));
+    configs.push((3, vec![(4, 2), (5, 2), (6, 3)], false, vec![0, 2], vec![]));
+    // trains whose first fragment carries a header extension (2 and >= 3 fragments), alone and next to a re-use train
+    configs.push((2, vec![(6, 3), (4, 2)], false, vec![], vec![0, 1]));
+    configs.push((3, vec![(8, 4), (6, 3), (4, 2)], true, vec![1], vec![0, 1]));
     if tier.thorough() {
-        configs.push((4, vec![(4, 2), (6, 3), (8, 4), (10, 5)], true, vec![1, 3]));
-        configs.push((4, vec![(8, 4), (8, 4), (8, 4), (8, 4)], true, vec![]));
-        configs.push((2, vec![(12, 4), (12, 6)], true, vec![]));
-        configs.push((6, vec![(4, 2), (4, 2), (6, 3), (6, 3), (6, 2), (8, 4)], true, vec![]));
-        configs.push((8, vec![(4, 2), (6, 3), (6, 2), (8, 4), (9, 3), (10, 5), (12, 6)], false, vec![]));
+        configs.push((4, vec![(4, 2), (6, 3), (8, 4), (10, 5)], true, vec![1, 3], vec![]));
+        configs.push((4, vec![(8, 4), (8, 4), (8, 4), (8, 4)], true, vec![], vec![]));
+        configs.push((2, vec![(12, 4), (12, 6)], true, vec![], vec![]));
+        configs.push((6, vec![(4, 2), (4, 2), (6, 3), (6, 3), (6, 2), (8, 4)], true, vec![], vec![]));
+        configs.push((8, vec![(4, 2), (6, 3), (6, 2), (8, 4), (9, 3), (10, 5), (12, 6)], false, vec![], vec![]));
     }
-    for (ci, (slots, shapes, ev, reuse)) in configs.iter().enumerate() {
-        let sys = Sys::new_with_reuse(*slots, shapes, *ev, reuse);
-        let ex = explore(&sys, &Limits { max_states: 3_000_000, max_depth: 10_000 }, &rep, &format!("slots={} trains={:?} evictor={} reuse={:?}", slots, shapes, ev, reuse));
+    for (ci, (slots, shapes, ev, reuse, ext)) in configs.iter().enumerate() {
+        let sys = Sys::new_full(*slots, shapes, *ev, reuse, ext);
+        let ex = explore(&sys, &Limits { max_states: 3_000_000, max_depth: 10_000 }, &rep, &format!("slots={} trains={:?} evictor={} reuse={:?} ext={:?}", slots, shapes, ev, reuse, ext));
         if !ex.closed {
             rep.cap("a configuration did not close");
         }
